@@ -147,6 +147,40 @@ func runC12(c *Ctx) {
 	c.Check(nOther == 0, "C12.R1", "no explicit panic, Must*, unchecked assertion or variable division in scope", token.NoPos, fmt.Sprintf("%d functions scanned", len(scope)), "see the sites listed above")
 	// contracts: requires proved at every call site
 	checkContracts(c, scope)
+	// object invariant behind the residual entry of RuleStorageScanner.Scan
+	{
+		bad := ""
+		n := 0
+		for _, w := range fieldWrites(c.P, "filterlist", "RuleStorageScanner", "currentScannerIdx") {
+			n++
+			if w.Fn.Name() != "Scan" {
+				bad = shortFn(w.Fn) + " writes the scanner index"
+				continue
+			}
+			okV := isConstInt(w.Val, 0)
+			if b, ok := w.Val.(*ssa.BinOp); ok && b.Op == token.ADD && isConstInt(b.Y, 1) {
+				if ld, ok := b.X.(*ssa.UnOp); ok && ld.Op == token.MUL {
+					if _, f, ok := fieldOf(ld.X); ok && f == "currentScannerIdx" {
+						okV = true
+					}
+				}
+			}
+			if !okV {
+				bad = "the scanner index is set to something other than 0 or index+1"
+			}
+		}
+		for _, w := range fieldWrites(c.P, "filterlist", "RuleStorageScanner", "Scanners") {
+			// the constructor's composite literal initialises a fresh object
+			if fa, ok := w.Instr.(*ssa.Store).Addr.(*ssa.FieldAddr); ok {
+				if _, isAlloc := fa.X.(*ssa.Alloc); isAlloc {
+					continue
+				}
+			}
+			bad = shortFn(w.Fn) + " replaces the scanner list after construction"
+		}
+		c.Check(bad == "" && n >= 2, "C12.R1", "RuleStorageScanner: index invariant 0 <= currentScannerIdx < len(Scanners) (residual entry)", token.NoPos,
+			fmt.Sprintf("%d writes, all in Scan: 0 or index+1 (the latter under index != len-1); Scanners never reassigned", n), bad)
+	}
 
 	// ---------- R2 ----------
 	checkNil(c, scope)
